@@ -81,8 +81,9 @@ ASSUMPTIONS = [
     'don\'t-care: fix version of a hotfix destination without any x.y.z or '
     'x.y.z.n tag; content of ignored_branches for a hotfix destination '
     '(and the order of ignored_branches everywhere)',
-    'don\'t-care (either reading accepted): whether a hotfix tag x.y.z.n or '
-    'an existing hotfix/x.y.z branch counts as "x.y.z is released"',
+    'don\'t-care (every reading accepted): whether a hotfix tag x.y.z.n '
+    'and/or an existing hotfix/x.y.z branch count as "x.y.z is released" '
+    '(four combinations; the real code counts the tags, not the branches)',
     'optional rejection (rejection accepted, acceptance must carry the '
     'statement\'s values): a stabilization branch older than a released '
     'patch of its line whose own tag is absent; a stabilization branch that '
@@ -233,8 +234,7 @@ def mechanism(exp, got, dst_name):
     if got[0] == 'raise':
         cls, berte = got[1], got[2]
         if exp['reject']:
-            return 'ill-formed-%s-crashes-with-%s%s' % (
-                '+'.join(exp['reject_reasons']), cls, hot)
+            return 'ill-formed-cascade-crashes-with-%s%s' % (cls, hot)
         if not berte:
             return 'crash-%s-in-%s%s' % (cls, got[3], hot)
         return 'rejects-well-formed-cascade-%s%s' % (cls, hot)
@@ -262,7 +262,7 @@ def mechanism(exp, got, dst_name):
     return 'fix-versions-extra-or-duplicated'
 
 
-def judge(acc, mode, names, tags, dst_name, exp, replaying=False):
+def judge(acc, mode, names, tags, dst_name, exp):
     got, nq = run_real(mode, names, tags, dst_name)
     acc.evals += 1
     if nq:
@@ -274,18 +274,23 @@ def judge(acc, mode, names, tags, dst_name, exp, replaying=False):
     else:
         acc.seen('exception_classes', got[1])
     ok = matches(exp, got)
-    via_alt = False
-    if not ok and exp['alt'] is not None:
-        ok = via_alt = matches(exp['alt'], got)
+    ref = exp
+    if not ok:
+        for alt in exp['alts']:
+            if matches(alt, got):
+                ok, ref = True, alt
+                break
+    via_alt = ref is not exp
     decided = False
     if ok:
-        ref = exp['alt'] if via_alt else exp
         if via_alt:
             acc.count('dont_care_hotfix_implies_release_reading')
         if got[0] == 'raise':
-            if ref['reject']:
+            if all(e['reject'] for e in [exp] + exp['alts']):
                 acc.count('must_reject_compared')
                 decided = True
+            elif ref['reject']:
+                acc.count('dont_care_rejection_demanded_by_one_reading_only')
             else:
                 acc.count('dont_care_optional_rejection_taken')
         else:
@@ -304,6 +309,10 @@ def judge(acc, mode, names, tags, dst_name, exp, replaying=False):
                 acc.count('versions_compared')
     else:
         decided = True
+        # describe the disagreement against the reading closest to what
+        # the real code did (same accept/reject kind), primary first
+        exp = ([e for e in [exp] + exp['alts']
+                if e['reject'] == (got[0] == 'raise')] + [exp])[0]
         mech = mechanism(exp, got, dst_name)
         if got[0] == 'raise':
             real = 'raised %s in %s' % (got[1], got[3])
@@ -369,8 +378,8 @@ def run_subset(acc, idx, comb, seed, sample_every):
                 acc.count('oracle_optional_reject_cells')
             else:
                 acc.count('oracle_accept_cells')
-            if exp['alt'] is not None:
-                acc.count('oracle_two_reading_cells')
+            if exp['alts']:
+                acc.count('oracle_several_readings_cells')
             got, ok = judge(acc, 'build', list(comb), tags, dst_name, exp)
             for b_order, t_order in pairs:
                 got, ok = judge(acc, 'direct', b_order, t_order, dst_name,
